@@ -197,9 +197,7 @@ func (db *GoBadgerDB) Iterator(start, end []byte, reverse bool) Iterator {
 	if bytes.Equal(end, types.EmptyValue) {
 		end = nil
 	}
-	bit := &goBadgerDBIt{it, itBase{start, end, reverse}, txn, nil}
-	bit.Rewind()
-	return bit
+	return &goBadgerDBIt{it, itBase{start, end, reverse}, txn, nil, true, false}
 }
 
 type goBadgerDBIt struct {
@@ -207,11 +205,18 @@ type goBadgerDBIt struct {
 	itBase
 	txn *badger.Txn
 	err error
+	// fresh: not positioned yet; as with the other backends the first Next goes to the first entry
+	fresh bool
+	// done: positioned before the first entry (reverse Seek below every key)
+	done bool
 }
 
 // Next next
 func (it *goBadgerDBIt) Next() bool {
-	if !it.Iterator.Valid() {
+	if it.fresh {
+		return it.Rewind()
+	}
+	if it.done || !it.Iterator.Valid() {
 		return false
 	}
 	it.Iterator.Next()
@@ -220,6 +225,7 @@ func (it *goBadgerDBIt) Next() bool {
 
 // Rewind ...
 func (it *goBadgerDBIt) Rewind() bool {
+	it.fresh, it.done = false, false
 	if it.reverse {
 		it.seekLast()
 	} else {
@@ -240,7 +246,13 @@ func (it *goBadgerDBIt) seekLast() {
 // a badger iterator is not range restricted, so the target is clamped into the [start, end)
 // window here, as the range restricted iterators of the other backends do
 func (it *goBadgerDBIt) Seek(key []byte) bool {
+	it.fresh, it.done = false, false
 	if it.reverse {
+		if len(key) == 0 {
+			// no key is below the empty key (badger itself would rewind to the last key)
+			it.done = true
+			return false
+		}
 		if it.end != nil && bytes.Compare(key, it.end) >= 0 {
 			it.seekLast()
 			return it.Valid()
@@ -260,7 +272,7 @@ func (it *goBadgerDBIt) Close() {
 
 // Valid 是否合法
 func (it *goBadgerDBIt) Valid() bool {
-	if !it.Iterator.Valid() {
+	if it.fresh || it.done || !it.Iterator.Valid() {
 		return false
 	}
 	key := it.Key()
